@@ -432,6 +432,22 @@ class Run:
             if len(ass) < len(thms):
                 self.broken.append(("proof", pf, "fewer Print Assumptions (%d) than theorems (%d)" % (len(ass), len(thms))))
                 all_ok = False
+            if self.tier == "thorough" and os.environ.get("VERIF_NO_COQCHK") != "1":
+                mod = "MW." + pf[:-2].replace("/", ".")
+                rc, cout = sh(["timeout", "3000", "coqchk", "-silent", "-o", "-Q", ".", "MW", mod], cwd=COQ, timeout=3100)
+                m = re.search(r"\* Axioms:(.*?)\n\s*\n\* Constants/Inductives relying on type-in-type:(.*?)\n\s*\n\* Constants/Inductives relying on unsafe"
+                              r" \(co\)fixpoints:(.*?)\n\s*\n\* Inductives whose positivity is assumed:(.*?)(?:\n\s*\n|\Z)", cout, re.S)
+                parts = [x.strip() for x in m.groups()] if m else None
+                clean = rc == 0 and parts is not None and all(
+                    x == "<none>" or (i == 0 and all(a.strip().split(".")[-1] in {y.split(".")[-1] for y in ALLOWED_AXIOMS}
+                                                     for a in x.split("\n") if a.strip()))
+                    for i, x in enumerate(parts))
+                self.obligation("coqchk:" + pf, clean, "rc=%s %s" % (rc, (parts if parts else cout[-300:])))
+                self.coverage.setdefault("coqchk", {})[pf] = {"rc": rc, "axioms": parts[0] if parts else None,
+                                                              "type_in_type": parts[1] if parts else None,
+                                                              "unsafe_fixpoints": parts[2] if parts else None,
+                                                              "assumed_positivity": parts[3] if parts else None}
+                self.checker_cmds.append("cd coq && coqchk -silent -o -Q . MW " + mod)
             for i, t in enumerate(thms):
                 if i < len(ass):
                     closed, axs = ass[i]
